@@ -61,6 +61,8 @@ pub fn starts_with_str(s: &String, p: &str) -> bool { unimplemented!() }
 #[verifier::external_body]
 pub fn starts_with_char(s: &String, p: char) -> bool { unimplemented!() }
 #[verifier::external_body]
+pub fn ends_with_char(s: &String, p: char) -> bool { unimplemented!() }
+#[verifier::external_body]
 pub fn string_clone(s: &String) -> (r: String) ensures r@ == s@ { unimplemented!() }
 #[verifier::external_body]
 pub fn format1(fmt: &str, a: &CowStr) -> String { unimplemented!() }
@@ -113,10 +115,11 @@ impl PackageBuilder {
     Fn(BUILDER, 'add_data', impl='impl PackageBuilder',
        subs=[(re.compile(r'\b(\w+)\.starts_with\(("[^"]*")\)'), r'starts_with_str(&\1, \2)', None, 'R12-str::starts_with(literal)'),
              (re.compile(r"\b(\w+)\.starts_with\(('[^']*')\)"), r'starts_with_char(&\1, \2)', None, 'R12-str::starts_with(char)'),
+             (re.compile(r"\b(\w+)\.ends_with\(('[^']*')\)"), r'ends_with_char(&\1, \2)', None, 'R12-str::ends_with(char)'),
              (re.compile(r'\bdest\.clone\(\)'), 'string_clone(&dest)', None, 'R12-String::clone'),
              (re.compile(r'\bdir\.clone\(\)'), 'string_clone(&dir)', None, 'R12-String::clone'),
              (re.compile(r'\bdest\.to_string\(\)'), 'string_clone(&dest)', None, 'R12-String::to_string'),
-             (re.compile(r'format!\(("[^"]*"), dest\)'), r'format1s(\1, &dest)', None, 'R12-format!'),
+             (re.compile(r'format!\(("[^"]*"), (dest|dir)\)'), r'format1s(\1, &\2)', None, 'R12-format!'),
              (re.compile(r'format!\(\s*("[^"]*"),\s*((?:(?!format!)[^;])*?\.to_string_lossy\(\))\s*,?\s*\)'), r'format1(\1, &\2)', None, 'R12-format!'),
              (re.compile(r'\|_\| Error::'), r'|_e: StripPrefixError| Error::', None, 'R23-named closure parameter'),
              ],
